@@ -113,6 +113,113 @@ def finding_for(sc, kind):
     return None
 
 
+def cli_stream(R, drv, rng, tier, scenarios):
+    """`dud stage add` with one or several stage files per invocation, then stage files edited on disk (normal, back-dated and
+    preserved timestamps) and the next command: the index a command works with never holds overlapping outputs, acceptance is
+    that of the reference relation, and an index written by a successful add loads again.  Three-way: implementation, reference
+    relation, Lean model (`dudmodel owner` on the stages in the order the implementation meets them)."""
+    import os, shutil, tempfile, s1
+    dud = vlib.build_dud()
+    base = tempfile.mkdtemp(prefix="c10cli.", dir=vlib.scratch())
+    pending = []          # (model line, implementation verdict, description)
+    viol = []
+    n_cli = 0
+
+    def st_doc(st):
+        return dict(cmd=b"", wd=b".", out=[(p, "" if fl == "-" else fl) for p, fl in st["o"]],
+                    **({"in": [(p, "" if fl == "-" else fl) for p, fl in st["i"]]} if st["i"] else {}))
+    cand = [sc for sc in scenarios if len(sc) >= 2 and len(set(s_["sp"] for s_ in sc)) == len(sc)
+            and all(s_["sp"].startswith(b"s") and s_["o"] for s_ in sc)]
+    rng.shuffle(cand)
+    for sc in cand[:70 if tier == "quick" else 1200]:
+        n_cli += 1
+        proj = s1.Project(dud, os.path.join(base, "c%d" % n_cli), remote=False)
+        try:
+            order = list(range(len(sc)))
+            rng.shuffle(order)
+            # partition the order into invocations
+            groups, cur = [], []
+            for k in order:
+                cur.append(k)
+                if rng.random() < 0.5:
+                    groups.append(cur)
+                    cur = []
+            if cur:
+                groups.append(cur)
+            for k in order:
+                proj.write_stage(sc[k]["sp"], st_doc(sc[k]))
+            proj.stage_paths = []
+            acc = []          # indices accepted so far
+            hist = []
+            for g in groups:
+                rc, so, se = proj.dud(["stage", "add"] + [os.fsdecode(sc[k]["sp"]) for k in g], cwd=proj.root)
+                hist.append("stage add %s -> exit %d" % (" ".join(sc[k]["sp"].decode() for k in g), rc))
+                want = spec_accepts([sc[k] for k in acc + g])
+                in_order = sorted(acc, key=lambda k: sc[k]["sp"]) + g
+                pending.append((line_of([sc[k] for k in in_order]), rc == 0, list(hist), [sc[k] for k in in_order]))
+                R.count("cli-add-%d-%d" % (n_cli, len(hist)), len(g) > 1)
+                if (rc == 0) != want:
+                    viol.append(dict(what=("accepted-with-overlap" if rc == 0 else "rejected-without-overlap"), history=list(hist),
+                                     stages=[(sc[k]["sp"].decode(), [(p.decode(), f) for p, f in sc[k]["o"]], [(p.decode(), f) for p, f in sc[k]["i"]]) for k in acc + g],
+                                     detail="`dud stage add` with %d file(s) in one invocation: reference relation says %s; %s" % (
+                                         len(g), "accept" if want else "reject", se.decode(errors="replace")[-200:])))
+                    break
+                if rc == 0:
+                    acc += g
+                    rc2, so2, se2 = proj.dud(["status"], cwd=proj.root)
+                    if b"load index from" in se2:
+                        viol.append(dict(what="unloadable", history=list(hist), detail="the index written by a successful `dud stage add` cannot be loaded: %s" % se2.decode(errors="replace")[-200:]))
+                        break
+            else:
+                if acc:
+                    # a stage file of the index is edited on disk; the next command re-validates the whole index
+                    j = rng.choice(acc)
+                    donor = rng.choice(cand)
+                    new = dict(rng.choice(donor), sp=sc[j]["sp"])
+                    path = proj.abspath(sc[j]["sp"])
+                    old_times = (os.stat(path).st_atime, os.stat(path).st_mtime)
+                    mode = rng.choice(["now", "backdated", "preserved", "future"])
+                    proj.write_stage(sc[j]["sp"], st_doc(new))
+                    proj.stage_paths = []
+                    if mode == "backdated":
+                        os.utime(path, (1577836800, 1577836800))
+                    elif mode == "preserved":
+                        os.utime(path, old_times)
+                    elif mode == "future":
+                        os.utime(path, (old_times[1] + 86400, old_times[1] + 86400))
+                    after = [new if k == j else sc[k] for k in acc]
+                    want = spec_accepts(after)
+                    rc3, so3, se3 = proj.dud(["status"], cwd=proj.root)
+                    loaded = b"load index from" not in se3
+                    hist.append("%s rewritten on disk (timestamp %s); status -> exit %d" % (sc[j]["sp"].decode(), mode, rc3))
+                    pending.append((line_of(sorted(after, key=lambda s_: s_["sp"])), loaded, list(hist), after))
+                    R.count("cli-edit-%d" % n_cli, True)
+                    if loaded != want:
+                        viol.append(dict(what=("overlap-loaded" if loaded else "rejected-without-overlap"), history=list(hist),
+                                         stages=[(s_["sp"].decode(), [(p.decode(), f) for p, f in s_["o"]], [(p.decode(), f) for p, f in s_["i"]]) for s_ in after],
+                                         detail="after the edit the reference relation says %s, the next command %s the index" % (
+                                             "accept" if want else "reject", "loaded" if loaded else "refused")))
+        finally:
+            proj.cleanup()
+    shutil.rmtree(base, ignore_errors=True)
+    for v in viol[:6]:
+        R.violation(dict(kind="property-violated-on-implementation", stream="CLI", **v))
+    model = run_lines([drv, "owner"], [p_[0] for p_ in pending]) if pending else []
+    bad = 0
+    for (ln, impl_ok, hist, stages), vm in zip(pending, model):
+        if accepted(vm) and vm.endswith("r=err"):
+            mok = False
+        else:
+            mok = accepted(vm)
+        if mok != impl_ok and not viol:
+            bad += 1
+            if bad <= 3:
+                R.violation(dict(kind="model-implementation-disagreement", stream="CLI", history=hist, model=vm, implementation="accepted" if impl_ok else "refused"), nofail=True)
+        elif mok == impl_ok:
+            R.cov["traces_validated_against_impl"] += 1
+    R.cov["cli_scenarios"] = n_cli
+
+
 def main(tier, replay=None):
     R = vlib.Result(PROP, tier)
     R.cov["rule"] = ("S8 in-process: real Stage.Validate / Index.AddStage / index.FromFile on stage sets over a %d-path universe with shared "
@@ -194,6 +301,8 @@ def main(tier, replay=None):
     R.cov["exhaustive"] = False
     for sc in scenarios[:2] + scenarios[-2:]:
         R.sample(pretty(sc))
+    if not replay:
+        cli_stream(R, drv, rng, tier, scenarios)
     R.absorb_audit(vlib.lean_audit(PROP))
     if tier == "thorough":
         ok, log = vlib.leanchecker(["DudModel.Props.C10"])
